@@ -1026,6 +1026,8 @@ class Interp:
                             fr.env[k_] = v_
             if fv[0] == 'closure':
                 cf, cfr = self.closures[fv[1]]
+                if self.is_generator(cf):
+                    raise Unknown('a generator function defined inside %s (its yields are not collected by the interpreter)' % fr.func.qualname)
                 return self.inline(cf, None, args, kw, fr, n, base_env=cfr.env, cls=cfr.cls)
             if fv[0] == 'lambda':
                 node, env0, lfunc, lcls = self.lambdas[fv[1]]
